@@ -3,7 +3,7 @@
    to the handler, termination with propagate_exit_signals; after fix commit 84e81b9.  One operation = one API call
    run to quiescence.  The correspondence run drives a real Node with instrumented processes. *)
 From EDP Require Import Base.Bytes Term.Term Order.Cmp Codec.Decode Dist.Control Node.Node Node.NodeFacts Gen.LockScope.
-From EDP Require Conc.Interleave Conc.RegisterConc.
+From EDP Require Conc.Interleave Conc.RegisterConc Node.GenServer Node.GenServerFacts.
 Open Scope N_scope.
 
 (* accepted for a live process: handed to it exactly once, after everything it received before; nobody else is
@@ -78,6 +78,52 @@ Theorem C18_one_process_per_name_under_any_schedule : forall prog schedule, Regi
 Proof. exact RegisterConc.registry_functional. Qed.
 
 Theorem C18_register_holds_its_lock : forallb snd lock_sites = true.
+Proof. vm_compute. reflexivity. Qed.
+
+(* ---- "OTP-style behaviours answer each call once to its caller" (gen_server.rs in the process loop of process.rs) ----
+   For every sequence of mailbox messages, every behaviour of the user's callbacks and every set of live callers: the
+   replies sent are exactly, in order, one {Ref, Reply} per call that was answered, to the process named in that call
+   when it is a live local process — for the messages handled up to the first failing callback; nothing else is sent *)
+Theorem C18_gen_server_replies_exact : forall on_call on_cast on_info live ms,
+  GenServer.g_sent (GenServer.grun on_call on_cast on_info live ms) =
+  flat_map (GenServerFacts.answer on_call live) (GenServerFacts.handled on_call on_cast on_info ms).
+Proof. exact GenServerFacts.replies_exact. Qed.
+
+Theorem C18_gen_server_one_reply_per_call : forall on_call live m, (length (GenServerFacts.answer on_call live m) <= 1)%nat.
+Proof. exact GenServerFacts.answer_at_most_one. Qed.
+
+Theorem C18_gen_server_replies_when_no_failure : forall on_call on_cast on_info live ms,
+  GenServerFacts.dies on_call on_cast on_info ms = false ->
+  GenServer.g_sent (GenServer.grun on_call on_cast on_info live ms) = flat_map (GenServerFacts.answer on_call live) ms.
+Proof. exact GenServerFacts.replies_when_no_failure. Qed.
+
+(* a reply goes to the caller named in the call it answers, with that call's reference and the callback's answer *)
+Theorem C18_gen_server_replies_only_to_callers : forall on_call on_cast on_info live ms, Forall (fun pt =>
+    exists body ref req r, In (GenServer.GReg body) ms /\ GenServer.classify body = GenServer.GCall (fst pt) ref req /\
+                           on_call req (fst pt) = GenServer.CReply r /\ snd pt = TTuple [ref; r] /\ live (fst pt) = true)
+  (GenServer.g_sent (GenServer.grun on_call on_cast on_info live ms)).
+Proof. exact GenServerFacts.replies_only_to_callers. Qed.
+
+(* the callbacks are shown every handled message once, in order; the process ends at the first failure and only then *)
+Theorem C18_gen_server_callbacks_see_each_message_once : forall on_call on_cast on_info live ms,
+  GenServer.g_log (GenServer.grun on_call on_cast on_info live ms) =
+  flat_map GenServerFacts.shown (GenServerFacts.handled on_call on_cast on_info ms) ++
+  (if GenServerFacts.dies on_call on_cast on_info ms then [GenServer.EvTerm (TAtom GenServer.n_normal)] else []).
+Proof. exact GenServerFacts.callbacks_see_each_message_once. Qed.
+
+Theorem C18_gen_server_alive_iff_no_failure : forall on_call on_cast on_info live ms,
+  GenServer.g_alive (GenServer.grun on_call on_cast on_info live ms) = negb (GenServerFacts.dies on_call on_cast on_info ms).
+Proof. exact GenServerFacts.alive_iff_no_failure. Qed.
+
+(* two calls with the same reference from two callers, a cast, a near miss and a call from a caller that is gone *)
+Example C18_gen_server_example :
+  let c k := {| pnode := [99]; pnum := k; pserial := 0; pcreation := 1; ploc := None |} in
+  let call k r req := GenServer.GReg (TTuple [TAtom GenServer.n_gen_call; TTuple [TPid (c k); TRef [99] 1 [r] None]; req]) in
+  GenServer.g_sent (GenServer.demo_run [c 1; c 2]
+     [call 1 7 (TInt 1); GenServer.GReg (TTuple [TAtom GenServer.n_gen_cast; TInt 2]); call 2 7 (TAtom GenServer.n_noreply);
+      GenServer.GReg (TTuple [TAtom GenServer.n_gen_call; TPid (c 1); TInt 3]); call 3 8 (TInt 4); call 2 9 (TInt 5)])
+  = [(c 1, TTuple [TRef [99] 1 [7] None; TTuple [TAtom GenServer.n_ok; TInt 1]]);
+     (c 2, TTuple [TRef [99] 1 [9] None; TTuple [TAtom GenServer.n_ok; TInt 5]])].
 Proof. vm_compute. reflexivity. Qed.
 
 Check C18_exit_notices.
